@@ -176,6 +176,12 @@ impl Vm {
       },
       FiberPopResult::Emptied => {
         if self.fiber == self.main_fiber {
+          // at the prompt the session goes on after this entry. The entry's fiber
+          // is done with its channels like any other finished fiber
+          while let Some(waiter) = self.fiber.get_runnable() {
+            self.queue_blocked_fiber(waiter);
+          }
+
           Some(ExecutionSignal::Exit)
         } else {
           // this fiber will not touch its channels again so wake every
